@@ -373,6 +373,7 @@ func diffCheck(prop string) func(sc *Scenario, st *Stats) []Violation {
 		if len(sc.Execs) == 1 && sc.P("nocuts", 0) == 0 {
 			r := NewRNG(sc.Seed ^ 0xc07)
 			maxCuts := sc.P("cuts", 8)
+			spent := 0
 			for i := range d.suts[0].Results {
 				res := &d.suts[0].Results[i]
 				G := sc.Execs[0].Txs[i].Gas
@@ -421,8 +422,15 @@ func diffCheck(prop string) func(sc *Scenario, st *Stats) []Violation {
 					sort.Ints(chosen)
 				}
 				for _, k := range chosen {
+					if spent > 4_000_000 {
+						// whole-scenario budget of re-executed events (a cut on transaction i re-runs
+						// transactions 0..i on both interpreters)
+						st.Probes["gas-cut-budget-exhausted"]++
+						break
+					}
 					c := withCut(sc, 0, i, limits[k])
 					dc := diffOnce(c)
+					spent += dc.sl.Len() + dc.rl.Len()
 					st.Steps += dc.sl.Len()
 					st.Faults["F1.gas-cut"]++
 					if k >= nestedFrom {
